@@ -8,7 +8,7 @@
 
    roundtrip W o  =  decode W (mnorm (encode W o))      -- what the model says is read back
    mnorm_obj o    =  o with every attribute value passed through msgpack (lists -> tuples, doubles -> singles:
-                     the recorded encoding decision, known finding C01:attrib:*); coordinates, partial charges and
+                     the recorded encoding decision, known findings C01:attrib:...); coordinates, partial charges and
                      weights are single-precision bit patterns throughout (the granularity of the property).
    wf_obj ens o   =  name is a string, charge an int, mult a non-zero int, attrib a dict, elements 0..118, bond
                      endpoints are atoms of o, arrays rectangular (molecule: o_nconf = 0, no weights). *)
@@ -24,32 +24,32 @@ Proof. vm_compute. reflexivity. Qed.
 
 (* ---- current encoding (v2): every listed field comes back; only msgpack's normalisation of attribute values *)
 Theorem C01_mol_v2 : forall o, wf_obj false o -> roundtrip mol_v2 o = Some (mnorm_obj o).
-Proof. exact (roundtrip_v2 mol_v2 (eq_refl <: wiring_ok mol_v2 = true) (eq_refl <: covers_all mol_v2 = true)). Qed.
+Proof. exact (roundtrip_v2 mol_v2 (@eq_refl bool true <: wiring_ok mol_v2 = true) (@eq_refl bool true <: covers_all mol_v2 = true)). Qed.
 Print Assumptions C01_mol_v2.
 
 Theorem C01_ens_v2 : forall o, wf_obj true o -> roundtrip ens_v2 o = Some (mnorm_obj o).
-Proof. exact (roundtrip_v2 ens_v2 (eq_refl <: wiring_ok ens_v2 = true) (eq_refl <: covers_all ens_v2 = true)). Qed.
+Proof. exact (roundtrip_v2 ens_v2 (@eq_refl bool true <: wiring_ok ens_v2 = true) (@eq_refl bool true <: covers_all ens_v2 = true)). Qed.
 Print Assumptions C01_ens_v2.
 
 (* ... and exactly the object that was stored when its attribute values are msgpack-stable *)
 Theorem C01_mol_v2_exact : forall o, wf_obj false o -> msgpack_stable o -> roundtrip mol_v2 o = Some o.
-Proof. exact (roundtrip_v2_exact mol_v2 (eq_refl <: wiring_ok mol_v2 = true) (eq_refl <: covers_all mol_v2 = true)). Qed.
+Proof. exact (roundtrip_v2_exact mol_v2 (@eq_refl bool true <: wiring_ok mol_v2 = true) (@eq_refl bool true <: covers_all mol_v2 = true)). Qed.
 Print Assumptions C01_mol_v2_exact.
 
 Theorem C01_ens_v2_exact : forall o, wf_obj true o -> msgpack_stable o -> roundtrip ens_v2 o = Some o.
-Proof. exact (roundtrip_v2_exact ens_v2 (eq_refl <: wiring_ok ens_v2 = true) (eq_refl <: covers_all ens_v2 = true)). Qed.
+Proof. exact (roundtrip_v2_exact ens_v2 (@eq_refl bool true <: wiring_ok ens_v2 = true) (@eq_refl bool true <: covers_all ens_v2 = true)). Qed.
 Print Assumptions C01_ens_v2_exact.
 
 (* ---- legacy encoding (v1), restricted to its schema: formal charge / spin and the three attribute dicts are not
    part of it and come back as the constructor defaults; every other field as in v2 *)
 Theorem C01_mol_v1 : forall o, wf_obj false o ->
   roundtrip mol_v1 o = Some (reset_obj_v1 gen_adflt gen_bdflt (mnorm_obj o)).
-Proof. exact (roundtrip_v1 mol_v1 (eq_refl <: wiring_ok mol_v1 = true) (eq_refl <: covers_v1 mol_v1 = true)). Qed.
+Proof. exact (roundtrip_v1 mol_v1 (@eq_refl bool true <: wiring_ok mol_v1 = true) (@eq_refl bool true <: covers_v1 mol_v1 = true)). Qed.
 Print Assumptions C01_mol_v1.
 
 Theorem C01_ens_v1 : forall o, wf_obj true o ->
   roundtrip ens_v1 o = Some (reset_obj_v1 gen_adflt gen_bdflt (mnorm_obj o)).
-Proof. exact (roundtrip_v1 ens_v1 (eq_refl <: wiring_ok ens_v1 = true) (eq_refl <: covers_v1 ens_v1 = true)). Qed.
+Proof. exact (roundtrip_v1 ens_v1 (@eq_refl bool true <: wiring_ok ens_v1 = true) (@eq_refl bool true <: covers_v1 ens_v1 = true)). Qed.
 Print Assumptions C01_ens_v1.
 
 (* ---- nothing else changes: conformer count, the arrays (hence their shapes), atom count, bond sequence/endpoints *)
